@@ -471,6 +471,7 @@ func checkC04(c *Ctx) {
 			c.Check(fewer(gs) || unsupported, "R4", "refusal-condition", p.InstrPos(r), "refusal only under active count < 2 or unsupported rule", "the rotation can be refused although two or more players are active")
 		}
 	}
+	checkCountAfterRefresh(c, "R4", rot, countFn)
 	if countFn != nil {
 		checkActiveCount(c, countFn)
 	} else {
@@ -1048,4 +1049,78 @@ func checkWrapCounters(c *Ctx, rule string, inScope func(f *ssa.Function) bool, 
 		}
 	}
 	c.Min(rule, "wrap-around loop counters", n, min)
+}
+
+// checkCountAfterRefresh (C04.R4, shared as C08.R8): see the comment inside.
+func checkCountAfterRefresh(c *Ctx, rule string, rot, countFn *ssa.Function) {
+	p := c.P
+	// the count that decides (refusal, heads-up) is the count AFTER the waiting flags were re-evaluated: a newcomer
+	// whose wait ends with this rotation is eligible for it — counted before the refresh he is missed, and a table
+	// with one old and one new eligible player is refused for ever (the open step retries into the same refusal)
+	if countFn != nil {
+		var refresh []ssa.Instruction
+		for _, ss := range p.Stores([]*ssa.Function{rot}) {
+			if ss.Owner == "SeatPlayer" && ss.Field == "IsBetweenDealerBB" && !storeIsLocal(ss.Instr) {
+				refresh = append(refresh, ss.Instr)
+			}
+		}
+		nCnt, okCnt := 0, true
+		for _, ci := range Calls(rot) {
+			if ci.Common().StaticCallee() != countFn {
+				continue
+			}
+			nCnt++
+			// (a later, second refresh — the heads-up → ring transition re-evaluates the arc from the new dealer — does
+			// not count against a count that already follows the first one)
+			after := false
+			for _, rs := range refresh {
+				for _, h := range loopHeaders(rot) {
+					if naturalLoop(h)[rs.Block()] && h.Dominates(ci.Block()) && !naturalLoop(h)[ci.Block()] {
+						after = true
+					}
+				}
+			}
+			for _, rs := range refresh {
+				if !after && Reaches(ci, rs) {
+					okCnt = false
+					c.Bad(rule, "count-after-waiting-refresh", p.InstrPos(ci), "the eligible players are counted before the rotation re-evaluates the waiting flags ("+p.InstrPos(rs)+"): a player whose wait ends with this rotation is not counted, and the rotation is refused (or played heads-up) although he is eligible")
+					break
+				}
+			}
+		}
+		if okCnt {
+			c.Ok(rule, "count-after-waiting-refresh", p.Pos(rot.Pos()), fmt.Sprintf("%d count(s), none taken before the %d refresh store(s)", nCnt, len(refresh)))
+		}
+		c.Min(rule, "eligible-player counts in the rotation", nCnt, 1)
+	}
+}
+
+// rotationAndCount finds the seat manager's rotation function (the error-returning callee of RotatePositions) and the
+// function whose result it compares with 2.
+func rotationAndCount(p *Prog) (rot, countFn *ssa.Function) {
+	smT := p.singleImpl("/seat_manager", "SeatManager")
+	if smT == nil {
+		return nil, nil
+	}
+	if rotW := p.Method(smT, "RotatePositions"); rotW != nil {
+		for _, ci := range Calls(rotW) {
+			if sc := ci.Common().StaticCallee(); sc != nil && inSeatManagerPkg(p, sc) && errResultIndex(sc.Signature) >= 0 {
+				rot = sc
+			}
+		}
+	}
+	if rot == nil {
+		return nil, nil
+	}
+	for _, b := range rot.Blocks {
+		for _, in := range b.Instrs {
+			if iff, ok := in.(*ssa.If); ok {
+				s := p.Sym(iff.Cond).Strip()
+				if s.Kind == "binop" && s.Name == "<" && s.Args[0].Strip().Kind == "call" && s.Args[1].Strip().Name == "2" {
+					countFn = s.Args[0].Strip().Call.Common().StaticCallee()
+				}
+			}
+		}
+	}
+	return rot, countFn
 }
